@@ -199,6 +199,24 @@ def check_privkey(case):
         f.expect(raised(cp), f"compute_point/accepts-invalid/{tag}", repr(cp)[:80])
         pk = attempt(bits.keys.pub, b)
         f.expect(raised(pk), f"keys.pub/accepts-invalid/{tag}", repr(pk)[:80])
+    if len(b) == 32:
+        # the same 32 bytes as the key field of a root extended private key (anchored bip32.py): both return forms of
+        # the deserialiser take it as a private key exactly when it encodes an integer in [1, n-1]
+        import bits.bips.bip32 as b32
+        from vf.ref import base58 as rb58
+        from vf.ref import hd as rhd
+
+        for net in ("main", "test"):
+            xk = rb58.check_encode(rhd.serialise(rhd.VER[(net, "prv")], 0, bytes(4), 0, bytes(range(32)), b"\x00" + b))
+            for form, kw in (("tuple", {}), ("dict", {"return_dict": True})):
+                d = attempt(b32.deserialized_extended_key, xk, **kw)
+                if valid:
+                    got = None if raised(d) else (d.get("key") if isinstance(d, dict) else seq(d)[-1] if seq(d) else None)
+                    ok = got == v or (isinstance(got, str) and got.lower().lstrip("0") == b.hex().lstrip("0")) or got == b
+                    f.expect(ok, f"xprv-{form}/rejects-or-wrong-valid", repr(d)[:160])
+                else:
+                    f.expect(raised(d), f"xprv-{form}/accepts-invalid/{tag}", repr(d)[:160])
+        cls.append("nt:as-xprv-key-field")
     return cls, f
 
 
